@@ -569,3 +569,60 @@ def rule_M7(ctx, rid='M7'):
            'the visiting order (%s) and the update discipline (%s) do not select the LAST '
            'containing bound' % ('descending' if desc else 'ascending',
                                  'unassigned only' if only_unassigned else 'overwrite'))
+
+
+# ---------------------------------------------------------------------------
+# A8  estimators combine per-shell arrays under one selection
+# ---------------------------------------------------------------------------
+
+def rule_A8(ctx, rid='A8'):
+    ctx.rule(rid, 'estimator alignment: in log_z, n_eff and eta every selection applied to a '
+             'per-shell quantity uses one and the same mask (so that likelihood, volume and '
+             'effective size of the same shells are combined), and the evidence depends on both '
+             'the shell likelihoods and the shell volumes')
+    from .agree import _depends
+    prog = ctx.program
+    shell_arrays = {'shell_n', 'shell_n_eff', 'shell_log_l', 'shell_log_v', 'shell_n_sample'}
+    for q in ('Sampler.log_z', 'Sampler.n_eff', 'Sampler.eta'):
+        f = prog.func(q)
+        cfg = cfg_of(f)
+        # locals that hold per-shell quantities (derived from shell arrays)
+        shellish = set()
+        for _ in range(3):
+            for n in cfg.nodes:
+                if n.kind == 'stmt' and isinstance(n.ast, ast.Assign) and \
+                        isinstance(n.ast.targets[0], ast.Name):
+                    if any((isinstance(x, ast.Attribute) and x.attr in shell_arrays) or
+                           (isinstance(x, ast.Name) and x.id in shellish)
+                           for x in ast.walk(n.ast.value)):
+                        shellish.add(n.ast.targets[0].id)
+        keys = {}
+        for n in cfg.nodes:
+            a = n.ast if n.kind == 'stmt' else (n.expr if n.kind == 'test' else None)
+            if a is None:
+                continue
+            for sub in ast.walk(a):
+                if isinstance(sub, ast.Subscript) and isinstance(sub.ctx, ast.Load):
+                    base_shell = any((isinstance(x, ast.Attribute) and x.attr in shell_arrays)
+                                     or (isinstance(x, ast.Name) and x.id in shellish)
+                                     for x in ast.walk(sub.value))
+                    sl = sub.slice
+                    if base_shell and isinstance(sl, (ast.Name, ast.UnaryOp, ast.Compare)):
+                        keys.setdefault(ekey(cfg, n.id, sl), []).append(sub.lineno)
+        ok = len(keys) <= 1
+        ctx.ob(rid, '%s:one-selection' % q, ok, f.where(),
+               'per-shell quantities are combined under a single selection (%d uses)' % sum(
+                   len(v) for v in keys.values()) if ok else
+               'per-shell quantities are selected with %d different masks (lines %s): values of '
+               'different shells would be combined' % (len(keys), sorted(
+                   {l for v in keys.values() for l in v})))
+    f = prog.func('Sampler.log_z')
+    cfg = cfg_of(f)
+    rets = [n for n in cfg.nodes if n.kind == 'stmt' and isinstance(n.ast, ast.Return) and
+            n.ast.value is not None and not (isinstance(n.ast.value, ast.Constant))]
+    for r in rets:
+        for a in ('shell_log_l', 'shell_log_v'):
+            ok = _depends(cfg, r.id, r.ast.value,
+                          lambda e, a=a: isinstance(e, ast.Attribute) and e.attr == a)
+            ctx.ob(rid, 'Sampler.log_z:depends-on(%s)' % a, ok, f.where(r.ast),
+                   'the evidence depends on %s' % a)
